@@ -242,8 +242,13 @@ def run_stories(stories):
     """Runs impl + model on each story. Returns list of (story, steps, problems, disagreement)."""
     results = []
     lines = []
-    for st in stories:
-        tr = run_impl(st)
+    for i, st in enumerate(stories):
+        # every third story hands the protocol a reused bytearray, every other third memoryview slices of a reused pool
+        simnet.FEED_MODE[0] = st.get("feed_mode", i % 3) if isinstance(st, dict) else i % 3
+        try:
+            tr = run_impl(st)
+        finally:
+            simnet.FEED_MODE[0] = 0
         steps, problems = impl_steps(tr)
         results.append([st, steps, problems, None, tr])
         lines.append(model_line(st, steps))
